@@ -308,6 +308,7 @@ def run(ctx):
     # vacuity guards
     for k, floor in [('exact_compared', 1000), ('shrink_checked', 1000), ('lambda_interior', 100), ('pd_checked', 100),
                      ('prec_checked', 1000), ('d_pairs_compared', 100), ('prec_skipped_singular', 1),
+                     ('scaled_calls', 1000), ('scaled_residual_calls_nonzero_column_means', 200),
                      ('single_condition_dataset_calls_measurements', 100),
                      ('single_condition_dataset_calls_unbalanced', 100),
                      ('one_repetition_dataset_calls_measurements', 50),
